@@ -13,6 +13,17 @@ EIG_NOTE = ('the contracts of scipy eigsh/eigs/eigh/eig and of sparse.remove_nul
             'ordering, positivity/ascending order of computed values and sparse/dense agreement are not decidable by contracts and are not claimed')
 
 CHECKS = {
+ 'C12': dict(
+    category='proof',
+    text=('calc_kt_kr is executed symbolically for the five connection types (laminates through the C01 contract): symmetric in the two panels and homogeneous of degree 1 '
+          'in the laminate stiffnesses; PanelAssembly.get_k0_conn is executed for the five connection kinds in both assembly orders: kernel dispatch, penalty constants, '
+          'interface arguments, block placement, and the obligation that the p1-p2 block survives the symmetrisation; TStiff2D.__init__/_rebuild/calc_k0 are executed '
+          'symbolically: placement of base and flange, the three skin-base blocks (sub-interval, offset distance, edge flags, sizes) and the base-flange blocks with '
+          'the interface lines taken in each panel\'s own coordinate.'),
+    design_ref='DESIGN.md section 4 (C12)',
+    note=('the connection KERNELS (kC*.pyx, stiffener models) are not yet proved against the mismatch-energy Hessian: only their call sites are under contract; '
+          'BladeStiff1D/2D not yet under contract; 6 known findings (coupling block lost when p1 comes after p2)'),
+    technique='contracts + symbolic execution of the Python ast; exact normal form'),
  'C07': dict(
     category='proof',
     text=('Panel.add_force/calc_fext and PanelAssembly.calc_fext are executed symbolically (real constructors, symbolic positions/components/load factor): every force '
